@@ -5,6 +5,7 @@ import json, os
 VERIF = os.path.dirname(os.path.dirname(os.path.abspath(__file__)))
 
 ENGINE = "harness/engine (vengine)"
+PROGS = "gen/progs.py + harness/progrt (generated program corpora compiled by rustc)"
 TB_COMMON = "Trusted base: the harness itself (reference model named in the text), rustc 1.95, parity-scale-codec 3.7.5 as linked, rayon; verdict is 'no violation within the stated bound'."
 
 CHECKS = {
@@ -16,6 +17,18 @@ CHECKS = {
                 technique="explicit-state exploration of registration histories (U1, stateright) and exhaustive type-graph enumeration (U2) with a co-inductive image check against MetaType::type_info()",
                 text="For every history of the C01 exploration (U1 to depth 3/4, core to 5/7; every U2 graph x root sequence), every id returned by a registration is compared, slot by slot and to a fixed point through cycles, with the type's own type_info(): path, parameter names and Some/None, kind, field names, type names, docs, variant names / indices / docs, array length, tuple arity, primitive tag; outputs of into_portable / map_into_portable are compared the same way.",
                 note="The derive- and built-in-grammar corpora (generated programs) extend this check in the progs engine when built; termination of registration is observed (a crash of the engine is investigated by the driver)."),
+    "C03": dict(cat="exploration", design="§4 C03, §3.5", engine=PROGS,
+                technique="exhaustive enumeration of a bounded grammar of type definitions (base shapes x overlays, deviation-bounded) compiled by rustc against /repo, x every value of boundary leaf domains; oracle: schema-directed reference decoder that knows only the PortableRegistry",
+                text="~4.4k (quick) / ~36k (thorough) definitions deriving TypeInfo and Encode: every base shape with every single codec/scale_info overlay at every position and overlay pairs (triples thorough) on representative bases, incl. skip, compact, index, encoded_as, explicit discriminants (c-like and #[repr(u8)] with fields), PhantomData members, recursion, generics; for each, all-default / all-last / every single-member deviation over the member's whole value domain. value.encode() must be consumed exactly by the reference decoder and yield the generator's expected tree (variant name and index, member names and order, leaf values); first byte == metadata index; no duplicate indices.",
+                note="valuetree implements the public SCALE rules only; the generator carries its own model of each definition."),
+    "C09": dict(cat="exploration", design="§4 C09, §3.5", engine=PROGS,
+                technique="exhaustive enumeration of the derive grammar compiled twice (docs feature off and on); oracle: the generator's own model of the declaration",
+                text="The same corpus plus the TypeInfo-only generic family, built with the docs feature off and on: path = crate + modules + ident with simultaneous first-match segment replacement (incl. repeated segments, swaps, module named like the type, raw modules), parameters by name in order with Some(argument)/None(skipped), members neither skipped nor PhantomData in order with (renamed) identifier, id of the declared type (Compact for compact members), type name == source text modulo whitespace with lifetimes as 'static (incl. macro_rules type groups), variant identifiers and indices, docs line by line with one leading space removed for every doc form, present iff always or (default and feature on).",
+                note="What an encoded_as member is described as is left to C03."),
+    "C13": dict(cat="exploration", design="§4 C13, §3.5", engine=PROGS,
+                technique="exhaustive enumeration of the generic sub-grammar x instantiations (incl. arguments without TypeInfo where the property allows) with rustc as the transition function",
+                text="Every generic definition of the corpus (parameter used directly, in every built-in container, in PhantomData, through T::A and <T as Tr>::A, in self-referential positions; lifetimes, const parameters, defaults, inline bounds, where clauses; skip_type_params subsets; explicit bounds incl. bounds + where clause on the type; codec(skip) members / variants of types without type info; compact and encoded_as members of parameter type in both orders) must compile, and every listed instantiation (incl. NoInfo / NoInfoTr arguments) must register without panic with the modelled Some/None parameter pattern.",
+                note="Each definition is its own module; rustc JSON diagnostics attribute a compile error to the definition, which is then excluded and reported."),
     "C05": dict(cat="model_checking", design="§4 C05", engine=ENGINE,
                 technique="explicit-state exploration of registration histories with repetition over all alias families (U1, stateright) and all small type graphs (U2); oracle: hand-assigned identity labels, closure size, evaluation counters, no-op re-registration",
                 text="Over the same histories: (i) two registered universe members get the same id iff their hand-assigned model identity is the same (every Box/Rc/Arc/&/&mut/Vec/VecDeque/slice/String/str/PhantomData alias family incl. wrappers of wrappers, and same-constructor-different-argument families); (ii) entry count equals the number of distinct identities reachable (from the U2 specification for graphs, from type_info() graphs for U1); (iii) registering anything already present, as root or sub-type, returns the old id and leaves Debug(registry) byte-identical; (iv) thread-local counters in hand-written impls and in every U2 node show each definition evaluated at most once per registry.",
@@ -95,6 +108,8 @@ def main():
             "add_only": True,
         },
         "engines": [
+            {"name": "progs", "path": "gen/progs.py", "serves_properties": sorted(p for p in CHECKS if CHECKS[p]["engine"] == PROGS),
+             "kind_free_text": "Python generators of program corpora + rustc + generated Rust binaries linked with harness/progrt (reference decoder, metadata model comparison)"},
             {"name": "vengine", "path": "harness/engine", "serves_properties": sorted(p for p in CHECKS if CHECKS[p]["engine"] == ENGINE),
              "kind_free_text": "Rust binary: bounded exhaustive enumerators and stateright explicit-state explorations running the real scale-info code against hand-written reference models"},
         ],
